@@ -104,13 +104,14 @@ Definition judge (src : list Z) (crashed : bool) (l : location) (e : expectation
     end.
 
 (* ------------------------------------------------------------------ the known finding of C24 *)
-(** Token::new computes col_end from the COOKED content of a token.  For a string-like token whose cooked text is
+(** Token::new computes col_end from the COOKED content of a token.  For a string-like token (a string literal, a piece of an
+    interpolated string, a doc comment, or the Illegal token of an unclosed one) whose cooked text is
     longer than what is left of its first source line (a `\t` escape is cooked to four blanks; a multi-line string
     keeps its line breaks in the content) the end column lies beyond the end of the line.  A diagnostic whose range
     ends with such a token is in this class. *)
 Definition string_like (k : tkind) : bool :=
   match k with
-  | StrLit | StrInterpLeft | StrInterpMid | StrInterpRight | DocComment => true
+  | StrLit | StrInterpLeft | StrInterpMid | StrInterpRight | DocComment | Illegal => true
   | _ => false
   end.
 Definition known_c24 (src : list Z) (ts : list token) (l : location) : bool :=
